@@ -53,7 +53,11 @@ extern "C" void harness() {
   double mini = vp_fork_int(vp_int("mini", 0, 1)) ? 1.5 : -std::numeric_limits<double>::infinity(), maxi = vp_fork_int(vp_int("maxi", 0, 1)) ? 2.0 : std::numeric_limits<double>::infinity();
   Gudhi::rips_complex::Sparse_rips_complex<double> src(dm, eps, mini, maxi);
 #else
+#ifdef VP_LINE
+  static const double epss[5] = {0.25, 0.5, 0.75, 0.375, 0.125}; double eps = epss[vp_fork_int(vp_int("eps", 0, 4))];
+#else
   static const double epss[3] = {0.25, 0.5, 0.75}; double eps = epss[vp_fork_int(vp_int("eps", 0, 2))];
+#endif
   Gudhi::rips_complex::Sparse_rips_complex<double> src(dm, eps);
 #endif
   ST st; src.create_complex(st, N - 1);
